@@ -54,6 +54,13 @@ Proof. unfold Qzero, Qeq. simpl. rewrite Z.eqb_eq. lia. Qed.
 Lemma Qzero_false q : Qzero q = false -> ~ (q == 0)%Q.
 Proof. intros H C. apply Qzero_spec in C. congruence. Qed.
 
+Lemma quot_rem_law a b : b <> 0 ->
+  a = Z.quot a b * b + Z.rem a b /\ Z.abs (Z.rem a b) < Z.abs b /\ (0 <= a -> 0 <= Z.rem a b) /\ (a <= 0 -> Z.rem a b <= 0).
+Proof.
+  intros Hb. pose proof (Z.quot_rem' a b). pose proof (Z.rem_bound_abs a b Hb).
+  repeat split; try lia; intros; [apply Z.rem_nonneg|apply Z.rem_nonpos]; assumption.
+Qed.
+
 (* integer division of two integer-kind constants truncates toward zero (Go's rule for typed and untyped ints):
    x = q*y + r with |r| < |y| and r having the sign of x *)
 Lemma int_quo_exact (x y : lit) a b : wf x -> wf y -> both_int x y = true ->
@@ -64,16 +71,11 @@ Lemma int_quo_exact (x y : lit) a b : wf x -> wf y -> both_int x y = true ->
                          a = q * b + r /\ Z.abs r < Z.abs b /\ (0 <= a -> 0 <= r) /\ (a <= 0 -> r <= 0)).
 Proof.
   intros Hx Hy Hb Ha Hbv. unfold both_int in Hb.
-  wf_cases x; wf_cases y; inversion Ha; inversion Hbv; subst; split; intros Hz;
-    unfold binary_untyped, class_of, binop_c; simpl;
-    try (subst; simpl; split; reflexivity);
-    (destruct (b =? 0) eqn:E; [apply Z.eqb_eq in E; contradiction|];
-     exists (Z.quot a b), (Z.rem a b); split; [reflexivity|split; [reflexivity|]];
-     pose proof (Z.quot_rem' a b); pose proof (Z.rem_bound_abs a b Hz);
-     pose proof (Z.rem_sign_nz a b);
-     repeat split; try lia;
-     [ intros; destruct (Z.eq_dec (Z.rem a b) 0); [lia|]; pose proof (Z.rem_sign_nz a b Hz n); destruct a; simpl in *; lia
-     | intros; destruct (Z.eq_dec (Z.rem a b) 0); [lia|]; pose proof (Z.rem_sign_nz a b Hz n); destruct a; simpl in *; lia ]).
+  wf_cases x; wf_cases y; inversion Ha; inversion Hbv; subst; (split; intros Hz;
+    [ subst; unfold binary_untyped, class_of, binop_c; simpl; split; reflexivity
+    | exists (Z.quot a b), (Z.rem a b); unfold binary_untyped, class_of, binop_c; simpl;
+      destruct (b =? 0) eqn:E; [apply Z.eqb_eq in E; contradiction|];
+      split; [reflexivity|split; [reflexivity|apply quot_rem_law; assumption]] ]).
 Qed.
 
 (* division with at least one non-integer operand is exact rational / complex division: quotient * divisor = dividend *)
